@@ -4,9 +4,12 @@
 package child
 
 import (
+	"bytes"
 	"encoding/json"
 	"fmt"
 	"os"
+	"runtime"
+	"sync/atomic"
 	"testing"
 	"time"
 
@@ -53,6 +56,7 @@ func TestChild(t *testing.T) {
 			os.Stdout.WriteString(fmt.Sprintf("S %d %d %s\n", step, who, site))
 		}
 	}
+	go stallWatchdog()
 	if spec.Replay != "" {
 		b, err := os.ReadFile(spec.Replay)
 		if err != nil {
@@ -63,7 +67,14 @@ func TestChild(t *testing.T) {
 			t.Fatal(err)
 		}
 		emit("BEGIN", proto.Begin{Prop: rf.Property, Run: rf.Run, Seed: rf.Seed, Flavour: spec.Flavour})
-		end := replay(t, &rf, journal)
+		runActive.Store(rf.Engine == "powsim")
+		var end proto.End
+		if rf.BySeed {
+			end = generate(t, rf.Property, rf.Tier, rf.Seed, spec.Verbose, journal)
+		} else {
+			end = replay(t, &rf, journal)
+		}
+		runActive.Store(false)
 		end.Run, end.Seed = rf.Run, rf.Seed
 		emit("END", end)
 		return
@@ -73,13 +84,44 @@ func TestChild(t *testing.T) {
 		b := proto.Begin{Prop: spec.Prop, Run: i, Seed: seed, Flavour: spec.Flavour}
 		emit("BEGIN", b)
 		t0 := time.Now()
+		runActive.Store(spec.Prop != "C02" && spec.Prop != "C06")
 		end := generate(t, spec.Prop, spec.Tier, seed, spec.Verbose, journal)
+		runActive.Store(false)
 		end.WallUs = time.Since(t0).Microseconds()
 		end.Run, end.Seed = i, seed
 		if i-spec.From >= 2 && end.Class == "" && !spec.Verbose {
 			end.Sample = nil
 		}
 		emit("END", end)
+	}
+}
+
+var runActive atomic.Bool
+
+// stallWatchdog lives outside every synctest bubble and watches the kernel's progress counter with the real
+// clock. A simulated run that makes no progress for 6 s is stuck in a way the cooperative scheduler cannot
+// resolve (an actor spinning on a flag, or blocked on a sync.Mutex, while the goroutine that would release it
+// is parked): the child says so and exits with status 3; the driver counts the run as inconclusive.
+func stallWatchdog() {
+	last, since := kernel.Progress.Load(), time.Now()
+	for {
+		time.Sleep(250 * time.Millisecond)
+		cur := kernel.Progress.Load()
+		if !runActive.Load() || cur != last {
+			last, since = cur, time.Now()
+			continue
+		}
+		if time.Since(since) > 6*time.Second {
+			buf := make([]byte, 1<<20)
+			n := runtime.Stack(buf, true)
+			why := "an actor is spinning or blocked in a way synctest does not see as blocked"
+			if bytes.Contains(buf[:n], []byte("sync.(*Mutex).Lock")) || bytes.Contains(buf[:n], []byte("sync.(*RWMutex)")) {
+				why = "an actor is blocked on a sync mutex held by a parked actor"
+			}
+			os.Stdout.WriteString("STALL " + why + "\n")
+			os.Stderr.Write(buf[:n])
+			os.Exit(3)
+		}
 	}
 }
 
